@@ -54,9 +54,57 @@ pub fn uchar() -> BoxedStrategy<char> {
     .boxed()
 }
 
+/// lengths around the sizes at which buffers, inline strings and block writers usually change behaviour
+pub fn long_len() -> BoxedStrategy<usize> {
+    prop::sample::select(vec![127usize, 128, 129, 255, 256, 257, 511, 512, 513, 514, 600, 1023, 1024, 1025, 2049, 4097]).boxed()
+}
+
+/// a long identifier: `first` followed by identifier characters up to one of the lengths above
+pub fn long_ident(first: &'static str, rest: &'static str) -> BoxedStrategy<String> {
+    (long_len(), any::<u16>())
+        .prop_map(move |(n, salt)| {
+            let rest: Vec<char> = rest.chars().collect();
+            let mut s = String::from(first);
+            let mut x = salt as usize;
+            while s.len() < n {
+                x = x.wrapping_mul(31).wrapping_add(7);
+                s.push(rest[x % rest.len()]);
+            }
+            s
+        })
+        .boxed()
+}
+
+/// a long text: a short unit (ASCII, two-, three- and four-byte characters) repeated up to one of the lengths above (in bytes)
+pub fn long_text() -> BoxedStrategy<String> {
+    (long_len(), prop::sample::select(vec!["a", "ab ", "é", "日本", "\u{1F600}", "x\"y", "a\\", "$a ", "\n"]), 0usize..4)
+        .prop_map(|(n, unit, lead)| {
+            let mut s = "x".repeat(lead);
+            while s.len() < n {
+                s.push_str(unit);
+            }
+            s
+        })
+        .boxed()
+}
+
 pub fn ustring(max: usize) -> BoxedStrategy<String> {
+    if max >= 16 {
+        return prop_oneof![60 => ustring_short(max), 1 => long_text()].boxed();
+    }
+    ustring_short(max)
+}
+
+fn ustring_short(max: usize) -> BoxedStrategy<String> {
     prop_oneof![
         1 => prop::sample::select(vec!["a  b", " x ", "  ", "Main  Street", "a\u{a0}\u{a0}b", "tab\t\tx", "nl\n\nx", "a \u{2003} b", "  lead", "trail  ", "x\r\ny"]).prop_map(String::from),
+        // strings that look like another encoding's scalars (Haystack 3 JSON type prefixes, Zinc literals, Hayson keys)
+        1 => prop::sample::select(vec![
+            "m:", "-:", "z:", "x:", "n:42", "n:42 kW", "n:-INF", "n:NaN", "r:abc", "r:abc Display Name", "y:sym", "u:http://x/", "d:2020-03-22", "h:12:30:00",
+            "t:2020-03-22T12:30:00Z UTC", "s:plain text", "s:", "c:1.5,2.5", "b:text/plain:abc", "x:Type:value",
+            "M", "N", "NA", "R", "T", "F", "NaN", "INF", "-INF", "@ref", "^sym", "`uri`", "2020-03-22", "12:30:00", "C(1,2)", "Bin(\"x\")", "[1]", "{a}", "<<>>", "ver:\"3.0\"",
+            "_kind", "{\"_kind\":\"marker\"}", "null", "true", "1e5", "0x1F",
+        ]).prop_map(String::from),
         8 => vec(uchar(), 0..=max.min(12)).prop_map(|v| v.into_iter().collect::<String>()),
         2 => vec(uchar(), 0..=max).prop_map(|v| v.into_iter().collect::<String>()),
         1 => Just(String::new()),
@@ -89,33 +137,38 @@ pub fn uri_string(max: usize) -> BoxedStrategy<String> {
 
 pub fn tag_name() -> BoxedStrategy<String> {
     prop_oneof![
-        3 => prop::sample::select(vec!["a", "b", "c", "dis", "id", "site", "val", "ver", "empty", "n", "m", "t", "f", "na", "inf", "nan", "e", "x1", "camelCase", "with_under", "z9_"]).prop_map(String::from),
-        2 => "[a-z][A-Za-z0-9_]{0,8}",
+        1 => long_ident("a", "abcdefghijklmnopqrstuvwxyzABCXYZ0189_"),
+        90 => prop::sample::select(vec!["a", "b", "c", "dis", "id", "site", "val", "ver", "empty", "n", "m", "t", "f", "na", "inf", "nan", "e", "x1", "camelCase", "with_under", "z9_"]).prop_map(String::from),
+        60 => "[a-z][A-Za-z0-9_]{0,8}",
     ]
     .boxed()
 }
 
 pub fn ref_id() -> BoxedStrategy<String> {
     prop_oneof![
-        3 => "[A-Za-z0-9_:.~-]{1,12}",
-        1 => "[a-z][a-z0-9]{0,5}",
+        1 => long_ident("p", "abcxyzABC019_:.~-"),
+        60 => "[A-Za-z0-9_:.~-]{1,12}",
+        20 => "[a-z][a-z0-9]{0,5}",
     ]
     .boxed()
 }
 
 pub fn symbol_name() -> BoxedStrategy<String> {
     prop_oneof![
-        3 => "[a-z][A-Za-z0-9_:.~-]{0,10}",
-        1 => "[a-z][a-z0-9]{0,5}",
+        1 => long_ident("s", "abcxyzABC019_:.~-"),
+        60 => "[a-z][A-Za-z0-9_:.~-]{0,10}",
+        20 => "[a-z][a-z0-9]{0,5}",
     ]
     .boxed()
 }
 
 pub fn xstr_type() -> BoxedStrategy<String> {
     // "C" alone is the Coord constructor in Zinc, so it is not an XStr type
-    "[A-Z][A-Za-z0-9_]{0,8}"
-        .prop_filter("C( is the coord literal", |s| s != "C")
-        .boxed()
+    prop_oneof![
+        1 => long_ident("X", "abcxyzABC019_"),
+        80 => "[A-Z][A-Za-z0-9_]{0,8}".prop_filter("C( is the coord literal", |s| s != "C"),
+    ]
+    .boxed()
 }
 
 // ---------------------------------------------------------------------------------------------
@@ -143,7 +196,8 @@ pub fn unit_ids() -> BoxedStrategy<Vec<String>> {
 
 pub fn number(cfg: GenCfg) -> BoxedStrategy<RVal> {
     let nonfinite = if cfg.nan {
-        prop::sample::select(vec![f64::NAN, f64::INFINITY, f64::NEG_INFINITY]).boxed()
+        // both signs of NaN: the sign bit of a NaN carries no meaning and must not turn it into -INF
+        prop::sample::select(vec![f64::NAN, -f64::NAN, f64::from_bits(0xfff8_0000_0000_0001), f64::INFINITY, f64::NEG_INFINITY]).boxed()
     } else {
         prop::sample::select(vec![f64::INFINITY, f64::NEG_INFINITY]).boxed()
     };
